@@ -32,7 +32,9 @@ def matches_finding(k, v):
 def _l1_worker(args):
     pid, model, kind, n, seed, corpus = args
     rng = random.Random(seed)
-    cases = list(corpus) + [l1.gen(rng, model, kind, rng.randrange(8, 70), i % 4 == 0) for i in range(n)]
+    # one history in four contains malformed calls; for the protocol property (C07) three in four do
+    cases = list(corpus) + [l1.gen(rng, model, kind, rng.randrange(8, 70), (i % 4 != 3) if pid == "C07" else (i % 4 == 0))
+                            for i in range(n)]
     out = dict(evals=0, tags=collections.Counter(), sigs=set(), dis=[], viol=[], samples=[], ops=collections.Counter(),
                errs=collections.Counter())
     for lo in range(0, len(cases), 500):
